@@ -11,7 +11,7 @@ from __future__ import annotations
 import itertools
 from typing import Any, Dict, List
 
-from ..absint import App, ExcVal, FuncRef, Hooks, Interp, ModRef, Obj, Raised, Sym, vrepr
+from ..absint import ClassRef as ClassRef_, App, ExcVal, FuncRef, Hooks, Interp, ModRef, Obj, Raised, Sym, vrepr
 from ..model import AnalysisError, Repo
 from ..report import Check
 
@@ -145,6 +145,28 @@ def run(repo: Repo, chk: Check) -> None:
     chk.ob('R-PATH', fi.qualname, bool(raised) and not bad, 'an exception of the HTTP call ends the request', fi.loc,
            {'paths': len(res2), 'raising': len(raised)}, what='a connection error is swallowed and the request re-sent')
 
+    # ---- the error raised is built from the last response whatever its body -----------------------------------------
+    chk.set_clause('C26.6')
+    bases, world = json_error_ancestry(repo)
+    fr = repo.func(f'{NODE}.RpcError.from_response')
+    hooks6 = FromResponseHooks()
+    it6 = Interp(repo, hooks6, max_depth=1, max_paths=200)
+    it6.external_exc_bases = {JSON_ERR: bases}
+    from ..absint import ClassRef
+    res6 = it6.run_function(fr, [Sym('res')], self_val=ClassRef(f'{NODE}.RpcError'))
+    shapes = {}
+    for p in res6:
+        shape = tuple(e[1:] for e in p.events if isinstance(e, tuple) and e[0] == 'atom')
+        shapes[shape] = p
+    chk.minimum('response shapes seen by RpcError.from_response', len(shapes), 3)
+    for shape, p in sorted(shapes.items(), key=str):
+        is_err = p.outcome == 'return' and ((isinstance(p.value, (ExcVal,)) and p.value.cls.endswith('RpcError')) or (isinstance(p.value, Obj) and p.value.cls.endswith('RpcError'))
+                                            or (isinstance(p.value, App) and p.value.op == 'from_errors'))
+        chk.ob('R-PATH', fr.qualname, is_err, f'response {dict(shape)}: an RpcError is built from it', fr.loc,
+               {'outcome': p.outcome, 'value': vrepr(p.value)[:120], 'json_error_caught_by': world},
+               what=f'for a response with {dict(shape)} RpcError.from_response ends with {p.outcome} {vrepr(p.value)[:100]}: the caller does not get the error of the last '
+                    f'response (requests raises requests.exceptions.JSONDecodeError from Response.json(); {world})')
+
     # ---- truth table of _is_transient_response -------------------------------------------------------------------
     chk.set_clause('C26.5')
     tf = repo.func(f'{NODE}._is_transient_response')
@@ -156,7 +178,9 @@ def run(repo: Repo, chk: Check) -> None:
     if not table_ok:
         return
     hooks = TransientHooks()
-    res = Interp(repo, hooks, max_depth=1, max_paths=50000).run_function(tf, [Sym('res')])
+    itt = Interp(repo, hooks, max_depth=1, max_paths=50000)
+    itt.external_exc_bases = {JSON_ERR: bases}
+    res = itt.run_function(tf, [Sym('res')])
     chk.minimum('paths of the transient predicate', len(res), 6)
     atoms_seen = set()
     for p in res:
@@ -234,6 +258,54 @@ def atom_name(c: Any):
     return None
 
 
+JSON_ERR = 'requests.exceptions.JSONDecodeError'
+
+
+def json_error_ancestry(repo: Repo):
+    """the handler classes that catch what requests.Response.json() raises, in every installation in which the package itself can be imported
+    (reference/external.json: the class derives from simplejson's error when simplejson is importable, from json's otherwise)"""
+    import json as _json
+    import os
+
+    ext = _json.load(open(os.path.join(os.path.dirname(os.path.dirname(__file__)), 'reference', 'external.json')))['exception_ancestry'][JSON_ERR]
+    needs_simplejson = any(v == 'simplejson' or v.startswith('simplejson.') for mi in repo.modules.values() for v in mi.imports.values())
+    if needs_simplejson:
+        return list(ext['caught_by_if_simplejson_installed']), 'simplejson is imported by the package, so it is installed and the error derives from simplejson.JSONDecodeError and ValueError, not from json.JSONDecodeError'
+    both = [c for c in ext['caught_by_if_simplejson_installed'] if c in ext['caught_by_otherwise']]
+    return both, 'the package does not require simplejson, so only the classes that catch the error with and without it count'
+
+
+class FromResponseHooks(Hooks):
+    def inline(self, it, fi):
+        return fi.qualname == f'{NODE}.RpcError.from_response'
+
+    def call(self, it, callee, args, kwargs, node):
+        if isinstance(callee, App) and callee.op == 'attr' and callee.args[1] == 'json' and isinstance(callee.args[0], Sym):
+            if it.choose(2) == 0:
+                it.event('atom', 'body parses', True)
+                return Sym('errors', 'list')
+            it.event('atom', 'body parses', False)
+            raise Raised(ExcVal(JSON_ERR, ('bad json',)))
+        if isinstance(callee, FuncRef) and callee.fi is not None and callee.fi.name == 'from_errors':
+            return App('from_errors', *args)
+        if isinstance(callee, ClassRef_) and callee.qual.endswith('RpcError'):
+            return Obj(callee.qual, {'args': tuple(args)})
+        return NotImplemented
+
+    def compare(self, it, op, a, b, node):
+        s = vrepr(a) + vrepr(b)
+        if 'content-type' in s and op in ('==', '!='):
+            v = it.choose(2) == 0
+            it.event('atom', 'content-type is application/json', v)
+            return v if op == '==' else not v
+        return NotImplemented
+
+    def isinstance(self, it, obj, cls):
+        if isinstance(obj, Sym) and obj.name == 'errors':
+            return True  # node errors are lists of error objects
+        return NotImplemented
+
+
 class TransientHooks(Hooks):
     def call(self, it, callee, args, kwargs, node):
         if isinstance(callee, App) and callee.op == 'attr' and callee.args[1] == 'json' and isinstance(callee.args[0], Sym):
@@ -241,7 +313,7 @@ class TransientHooks(Hooks):
                 it.event('atom', 'parses', True)
                 return Sym('body')
             it.event('atom', 'parses', False)
-            raise Raised(ExcVal('ValueError', ('bad json',)))
+            raise Raised(ExcVal(JSON_ERR, ('bad json',)))
         return NotImplemented
 
     def iterate(self, it, obj, node):
